@@ -382,7 +382,28 @@ func (s *Stub) serveLookupd(w http.ResponseWriter, r *http.Request, cl *Cluster,
 	case "/topics":
 		writeJSON(w, 200, obj{"topics": sorted(me.Topics)})
 	case "/channels":
-		writeJSON(w, 200, obj{"channels": []string{}})
+		// AdminView.tla LChans: the channels of the nsqd this lookupd lists for the topic (t3: left behind by nsqd that are
+		// gone); nsqlookupd builds the list from a map, so the order is arbitrary
+		t := q.Get("topic")
+		set := map[string]bool{}
+		for n, nd := range me.Nodes {
+			if nq, ok := cl.Nsqd[n]; ok && has(nd.Topics, t) {
+				if tp, ok := nq.Topics[t]; ok {
+					for c := range tp.Channels {
+						set[c] = true
+					}
+				}
+			}
+		}
+		if t == "t3" && has(me.Topics, t) {
+			set["c1"], set["c2"] = true, true
+		}
+		chs := []string{}
+		for c := range set {
+			chs = append(chs, c)
+		}
+		sort.Slice(chs, func(i, j int) bool { return mapOrder(s.name, chs[i]) < mapOrder(s.name, chs[j]) })
+		writeJSON(w, 200, obj{"channels": chs})
 	case "/lookup":
 		t := q.Get("topic")
 		if !has(me.Topics, t) {
